@@ -251,7 +251,28 @@ func runC05(c *Ctx) error {
 		// restart: close the database and run database.Init on the same file again
 		ns, err := s.Reopen()
 		if err != nil {
-			return false, fmt.Errorf("restart: %w", err)
+			// the restart REFUSES the crash image (database.Init fails): that is an observable, not a harness error.
+			// The database file is abandoned; the run goes on with a fresh stack.
+			msg := strings.NewReplacer("|", "/", "\n", " ", "\t", " ").Replace(err.Error())
+			if len(msg) > 200 {
+				msg = msg[:200]
+			}
+			obs := fmt.Sprintf("pre:%s|crash:%s/RESTART-FAILED %s|redeliver:/|clean:%s", pre, strings.Join(outs, ","), msg, clean)
+			c.Case(hh.Line(), obs)
+			c.Count("mode:" + mode)
+			c.Count("restart-failed")
+			nfresh++
+			o2 := opts
+			o2.Dir = c.TmpDir(fmt.Sprintf("c05-after-refused-restart-%d", nfresh))
+			fs, ferr := NewStack(o2)
+			if ferr != nil {
+				return false, fmt.Errorf("fresh stack after a refused restart: %w", ferr)
+			}
+			s = fs
+			if err := s.HookCommits(4, hook); err != nil {
+				return false, err
+			}
+			return true, nil
 		}
 		s = ns
 		if err := s.HookCommits(4, hook); err != nil {
